@@ -35,6 +35,8 @@ type Fields struct {
 	SigNonce    []byte
 	SigTime     *time.Time
 	SigSeq      *uint64
+	// Data: ValidityPeriod of the SignatureInfo (certificate signers)
+	NotBefore, NotAfter *time.Time
 }
 
 func cloneName(n enc.Name) enc.Name {
@@ -69,6 +71,16 @@ func FromData(d ndn.Data, covered enc.Wire) *Fields {
 	if sv := sig.SigValue(); sv != nil {
 		f.HasSigValue = true
 		f.SigValue = append([]byte{}, sv...)
+	}
+	if nb, na := sig.Validity(); nb != nil || na != nil {
+		if nb != nil {
+			v := *nb
+			f.NotBefore = &v
+		}
+		if na != nil {
+			v := *na
+			f.NotAfter = &v
+		}
 	}
 	f.SigCovered = append([]byte{}, covered.Join()...)
 	return f
@@ -175,6 +187,19 @@ func Diff(a, b *Fields) []string {
 		d = append(d, "sig-time")
 	}
 	add(ptrEq(a.SigSeq, b.SigSeq), "sig-seq")
+	// the validity period is written with one-second resolution from the signer's own clock
+	// reading: equal means the same instant within a few seconds, whatever the time zone
+	near := func(x, y *time.Time) bool {
+		if (x == nil) != (y == nil) {
+			return false
+		}
+		if x == nil {
+			return true
+		}
+		dd := x.Sub(*y)
+		return dd > -5*time.Second && dd < 5*time.Second
+	}
+	add(near(a.NotBefore, b.NotBefore) && near(a.NotAfter, b.NotAfter), "validity-period")
 	return d
 }
 
